@@ -93,3 +93,116 @@ Section Examples.
                             /\ disciplined [] (proj 2 s12) = true /\ sched_ok [] s12 = true.
   Proof. repeat split; reflexivity. Qed.
 End Examples.
+
+(* ====================================================================================================
+   (5) WHOLE SCHEMA OPERATIONS (appended).  Schema/FootprintOps.v maps Unserialize / Validate / Serialize /
+   ValidateCompatibility(data) on a schema — following Schema/Ops.v branch by branch, stopping at the first
+   error exactly where Ops.v stops — to the sequence of primitive cache uses they make (`prims_*`; nodes of
+   the schema term are numbered, a cell belongs to a node).  The sequential footprint family compares the
+   cells the model says each operation fills with the cells the Go code filled (lib/props_c13.py). *)
+From Verif Require Import Base.Float Base.GoVal Schema.Regex Schema.Units Schema.FloatUnits Schema.Syntax Schema.Ops
+  Schema.FootprintOps Proofs.C13Cache Proofs.C13Ops.
+From Verif Require Proofs.C12History.
+
+(* for every schema (well-formed or not), environment, operation, argument, fuel, shape and cache state the
+   access trace of the operation's primitive uses is disciplined: corollary of C13_footprint.  With C13_drf:
+   any number of threads running any schema operations on one shared schema are data-race free. *)
+Theorem C13_footprint_ops : forall words pu sh st f e s v,
+  disciplined [] (fst (run_prims sh true st (prims_unser words pu f e s v))) = true /\
+  disciplined [] (fst (run_prims sh true st (prims_validate words pu f e s v))) = true /\
+  disciplined [] (fst (run_prims sh true st (prims_serialize words pu f e s v))) = true /\
+  disciplined [] (fst (run_prims sh true st (prims_compat words pu f e s v))) = true.
+Proof. exact footprint_ops. Qed.
+Print Assumptions C13_footprint_ops.
+
+(* first use fills, later use fills nothing: after ANY sequence of primitive uses started from a closed
+   state (the empty one is closed: `closed` says a compiled expression implies sorted multipliers, which
+   updateReCache guarantees) a second run of the same uses fills no cell *)
+Theorem C13_later_use_fills_nothing : forall sh fx ps st, closed sh st ->
+  let st1 := snd (run_prims sh fx st ps) in
+  newly_filled st1 (snd (run_prims sh fx st1 ps)) = [].
+Proof. exact second_run_fills_nothing. Qed.
+Print Assumptions C13_later_use_fills_nothing.
+
+(* ISOLATION of whole operations: the state-passing form of an operation (Proofs/C13Cache.v: `op_st` —
+   the result evaluated THROUGH the caches of compiled unit expressions, sorted multipliers and decoded
+   defaults, Schema/OpsC.v; the new cache = the old one plus the cells `touched k`), started from ANY
+   coherent cache state, returns exactly what the pure function of Schema/Ops.v returns, leaves a
+   coherent cache and overwrites nothing.  `touched` is arbitrary, in particular
+   C13Cache.touched_lazy = the cells of the operation's own primitive uses. *)
+Theorem C13_isolation_ops : forall words puw touched f e s c (k : C12History.call),
+  vcoherent (e_or e) c ->
+  fst (op_st words puw touched f e s c k) = C12History.run words (pu0 puw) f e s k /\
+  vcoherent (e_or e) (snd (op_st words puw touched f e s c k)) /\
+  (forall k' v, vlookup k' c = Some v -> vlookup k' (snd (op_st words puw touched f e s c k)) = Some v).
+Proof. exact op_st_isolated. Qed.
+Print Assumptions C13_isolation_ops.
+
+(* ---- non-vacuity: a scope whose object has an int property with units and a default, and a list of
+   ints with units; node numbers: scope 0, object 1, n 2, l 3, its item 4 ---- *)
+Definition ex13_u : units :=
+  mkUnits (mkUnit "B" "B" "byte" "bytes") [(1024%Z, mkUnit "kB" "kB" "kilobyte" "kilobytes")].
+Definition ex13_prop (t : schema) (dflt : option string) : property :=
+  mkProp t None false [] [] [] dflt [] false false None.
+Definition ex13_scope : schema :=
+  SScope [("O", SObject "O" false [("n", ex13_prop (SInt None None (Some ex13_u)) (Some "5"));
+                                   ("l", ex13_prop (SList (SInt None None (Some ex13_u)) None None) None)])] "O".
+Definition ex13_or : oracles :=
+  mkOracles (fun txt => if String.eqb txt "5" then Some (VFloat TF64 (fl_of_Z b64 5)) else None) (fun _ => true).
+Definition ex13_env : env := mkEnv [] [] ex13_or.
+Definition ex13_v : gval := VMap t_any_map false [(vstr "l", VSlice t_any_slice false [vstr "2kB"; vstr "3 B"])].
+Definition ex13_bad : gval := VMap t_any_map false [(vstr "l", VSlice t_any_slice false [vstr "2kB"; vstr "x"; vstr "3 B"])].
+
+Example C13_ex_ops_prims :
+  (* n is absent: one GetDefaults on object 1; then the two strings of the list, both on definition 4 *)
+  prims_unser [] parse_units_float 20 ex13_env ex13_scope ex13_v = [PDefaults 1; PRe 4; PSorted 4; PRe 4; PSorted 4]
+  (* the second item is rejected (after it went through the caches): the third is never looked at *)
+  /\ prims_unser [] parse_units_float 20 ex13_env ex13_scope ex13_bad = [PDefaults 1; PRe 4; PSorted 4; PRe 4; PSorted 4]
+  /\ is_ok (unser [] parse_units_float 20 ex13_env ex13_scope ex13_bad) = false
+  (* Validate never parses a string with units and never asks for defaults *)
+  /\ prims_validate [] parse_units_float 20 ex13_env ex13_scope ex13_v = [].
+Proof. repeat split; vm_compute; reflexivity. Qed.
+
+Example C13_ex_ops_fill :
+  let xs := xprims_unser [] parse_units_float false 20 0 (nenv0 ex13_env ex13_scope) ex13_env ex13_scope ex13_v in
+  let sh := shape_of xs true in
+  let st1 := snd (run_prims sh true cs_empty (map prim_of xs)) in
+  newly_filled cs_empty st1 = [CUnitsRe 4; CUnitsSorted 4; CDefaults 1]
+  /\ newly_filled st1 (snd (run_prims sh true st1 (map prim_of xs))) = [].
+Proof. repeat split; vm_compute; reflexivity. Qed.
+
+Example C13_ex_isolation :
+  let c := vfill ex13_or [] [KRe ex13_u; KJson "5"] in
+  let touched := touched_lazy [] parse_units_float_with 20 0 (nenv0 ex13_env ex13_scope) ex13_env ex13_scope in
+  vcoherent ex13_or c
+  /\ fst (op_st [] parse_units_float_with touched 20 ex13_env ex13_scope c (C12History.CUnser ex13_v))
+     = C12History.run [] parse_units_float 20 ex13_env ex13_scope (C12History.CUnser ex13_v)
+  /\ map fst (snd (op_st [] parse_units_float_with touched 20 ex13_env ex13_scope c (C12History.CUnser ex13_v)))
+     = [KSorted ex13_u; KJson "5"; KRe ex13_u]
+  /\ is_ok (unser [] parse_units_float 20 ex13_env ex13_scope ex13_v) = true.
+Proof.
+  split; [apply vfill_coherent, vcoherent_nil|]. repeat split; vm_compute; reflexivity.
+Qed.
+
+(* `op_st` reads the cache as it was when the call started.  In the code a cell may be filled — by this
+   call or by another thread — between two reads of one call.  Let EVERY READ find its own cache state
+   (any function of what is read: the state found by the integer / float unit parser on (definition, text),
+   the state found when a default text is looked up), all coherent: the call still returns exactly what
+   the pure function returns. *)
+Theorem C13_isolation_ops_any_read_state :
+  forall words puw st_int st_float st_json f e s (k : C12History.call),
+  (forall u x, vcoherent (e_or e) (st_int u x)) -> (forall u x, vcoherent (e_or e) (st_float u x)) ->
+  (forall t, vcoherent (e_or e) (st_json t)) ->
+  run_r words puw st_int st_float st_json f e s k = C12History.run words (pu0 puw) f e s k.
+Proof. exact run_r_coherent. Qed.
+Print Assumptions C13_isolation_ops_any_read_state.
+
+Example C13_ex_any_read_state :
+  (* reads of the integer parser find the expression already compiled, reads of defaults find an empty cache *)
+  let st_int := fun (_ : units) (_ : string) => vfill ex13_or [] [KRe ex13_u; KSorted ex13_u] in
+  (forall u x, vcoherent ex13_or (st_int u x)) /\
+  run_r [] parse_units_float_with st_int (fun _ _ => []) (fun _ => []) 20 ex13_env ex13_scope (C12History.CUnser ex13_v)
+  = C12History.run [] parse_units_float 20 ex13_env ex13_scope (C12History.CUnser ex13_v).
+Proof.
+  split; [intros; apply vfill_coherent, vcoherent_nil | vm_compute; reflexivity].
+Qed.
